@@ -41,7 +41,8 @@ class Tape:
 
 
 def secrets(rng):
-    base = ["", "a", "password", "pässwörd-𝄞", "x" * 10000, "pass", "passw", "password1", " password", "PASSWORD"]
+    base = ["", "a", "password", "pässwörd-𝄞", "x" * 10000, "pass", "passw", "password1", " password", "PASSWORD",
+            "user:pass", "root:toor", ":", "a:b", "abcd:efgh", "QUJD:REVG", "salt:digest", "héllo: wörld"]
     base += ["".join(rng.choice("abc é0") for _ in range(rng.randint(1, 30))) for _ in range(4)]
     out = []
     for s in base:
@@ -156,15 +157,29 @@ def run(ctx):
             reqs.append({"cmd": "digest.create", "alg": alg, "plaintext": b"pw".hex(), "salt": salt.hex(), "tape": [x.hex() for x in tp.log] or ["00" * size]})
             pend.append(("create", {"stream": "explicit-salt", "alg": alg, "salt": salt.hex()}, got))
         # defaults
-        for default in ["hunter2", DigestValue.create("hunter2", hfun)]:
-            s2 = Schema()
-            s2.pw = ChallengeField(alg, default=default)
-            with Tape(rng) as tp:
-                c = s2()
-            res.case(None, kind="default")
+        import os as _os
+        for default, envmode in [("hunter2", None), (DigestValue.create("hunter2", hfun), None), ("hunter2", "named-unset"), ("hunter2", "derived-unset"),
+                                 ("hunter2", "prefix-unset"), ("hunter2", "named-empty")]:
+            var = "CINCO_T_C09_PW"
+            _os.environ.pop(var, None)
+            s2 = Schema(env="CINCO_T_C09") if envmode == "prefix-unset" else Schema()
+            if envmode in ("named-unset", "named-empty"):
+                s2.pw = ChallengeField(alg, default=default, env=var)
+            elif envmode == "derived-unset":
+                s2.pw = ChallengeField(alg, default=default, env=True)
+            else:
+                s2.pw = ChallengeField(alg, default=default)
+            if envmode == "named-empty":
+                _os.environ[var] = ""
+            try:
+                with Tape(rng) as tp:
+                    c = s2()
+            finally:
+                _os.environ.pop(var, None)
+            res.case(("default", alg, envmode) if envmode else None, kind="default" + (":" + envmode if envmode else ""))
             d = c.pw
             if not isinstance(d, DigestValue):
-                res.violate(None, "default not stored as a digest value", {"alg": alg})
+                res.violate(None, "default not stored as a digest value", {"alg": alg, "env": envmode})
                 continue
             try:
                 d.challenge("hunter2")
